@@ -31,6 +31,17 @@ func canon(raw json.RawMessage) string {
 	if err := json.Unmarshal(raw, &v); err != nil {
 		return "!" + string(raw)
 	}
+	// a data value that wraps a primitive stands for that primitive ({"data":null} is null, {"data":12} is 12):
+	// the wrapper only matters for objects and arrays, and the library sends such values unwrapped
+	if m, ok := v.(map[string]interface{}); ok && len(m) == 1 {
+		if d, has := m["data"]; has {
+			switch d.(type) {
+			case map[string]interface{}, []interface{}:
+			default:
+				v = d
+			}
+		}
+	}
 	b, _ := json.Marshal(v)
 	s := string(b)
 	if s == `{"action":"delete"}` {
@@ -246,7 +257,9 @@ type c10world struct {
 }
 
 // value pools: concrete JSON values for the abstract alphabet
-var c10vals = []interface{}{1, `a"b`, res.Ref("test.other.x"), res.SoftRef("test.soft.y"), res.DataValue[map[string]interface{}]{Data: map[string]interface{}{"x": []int{1}}}, nil, true, 2.5}
+var c10vals = []interface{}{1, `a"b`, res.Ref("test.other.x"), res.SoftRef("test.soft.y"), res.DataValue[map[string]interface{}]{Data: map[string]interface{}{"x": []int{1}}}, nil, true, 2.5,
+	// a data value whose payload is null (what an unset DataValue marshals to)
+	res.DataValue[interface{}]{Data: nil}}
 
 func newC10World(cfg c10cfg) (*c10world, error) {
 	w := &c10world{cfg: cfg, base: "test.r."}
